@@ -171,7 +171,7 @@ def clone_values_conform(atom, f, node, site):
     so the values setter of the copy (same dtype) cannot refuse them."""
     if not (f.short == "property.BaseProperty.clone" and bool(site.chain) and site.evkind == "store_attr" and site.call.attr == "values"):
         return False
-    return _fresh(atom, f, node, _recv(site)) and site.origin[0] in ("property.BaseProperty.values.setter", "property.BaseProperty._convert_value_input")
+    return _fresh(atom, f, node, _recv(site)) and (site.origin[0] == "property.BaseProperty.values.setter" or site.origin[0].endswith("._convert_value_input"))
 
 
 def export_leaf_appends_clones(atom, f, node, site):
